@@ -15,6 +15,7 @@ open ElaVerif.Caches
 /-- T-gen: cache size constants, and which functions that disconnect blocks clean the UTXO cache
     first (`reorganizeChain` does, the unused exported `ReorganizeChain2` path does not). -/
 theorem C15_gen_facts :
+    ElaVerif.Gen.C15.memoryFirstReferenceSize = 5000 ∧
     ElaVerif.Gen.C15.blocksCacheSizeStore = cacheSize ∧ ElaVerif.Gen.C15.blocksCacheSizeP2P = cacheSize ∧
     ElaVerif.Gen.C15.disconnectCallers =
       [("reorganizeChain", true), ("reorganizeChain2", false)] ∧
